@@ -174,22 +174,28 @@ def run(rep, tier):
                 styles = ["kebab", "snake"] if c["srcs"]["file"] != "absent" and (tier == "thorough" or fam.name.startswith("lib_name")) else ["kebab"]
                 for style in styles:
                     if fam.kind == "string":
-                        values = {"file": "vfile", "cli": "vcli", "attr": "vattr"}
+                        vsets = [{"file": "vfile", "cli": "vcli", "attr": "vattr"}]
                         if fam.name == "kotlin.domain":
-                            values = {"file": "d.file", "cli": "d.cli", "attr": "d.attr"}
-                        res, how = run_case(fam, b, c, values, style, wd)
-                        nruns += 1
-                        got = fam.observe(res)
-                        if eff is None:
-                            want = None
-                        else:
-                            want = values[eff]
-                        ok = (got == want) or (want is None and (got is None or got in ("somelib",)))
-                        if want is None and fam.name == "demo_gen.module_name":
-                            ok = got not in values.values()
-                        if not ok:
-                            rep.violation({"family": fam.name, "backend": b, "effective_source": eff, "srcs": c["srcs"]},
-                                          {"expected_value": want, "observed_value": got, "how": how, "stderr": res["stderr"][-600:]})
+                            vsets = [{"file": "d.file", "cli": "d.cli", "attr": "d.attr"}]
+                        # values keep their type: a *quoted* string stays a string even if its text reads like another TOML
+                        # scalar (the file and the attribute quote their strings; on the command line the shell strips quotes)
+                        if c["srcs"]["file"] != "absent" or c["srcs"]["attr"] != "absent":
+                            vsets.append(dict(vsets[0], file="2048", attr="77"))
+                        for values in vsets:
+                            res, how = run_case(fam, b, c, values, style, wd)
+                            nruns += 1
+                            got = fam.observe(res)
+                            if eff is None:
+                                want = None
+                            else:
+                                want = values[eff]
+                            ok = (got == want) or (want is None and (got is None or got in ("somelib",)))
+                            if want is None and fam.name == "demo_gen.module_name":
+                                ok = got not in values.values()
+                            if not ok:
+                                rep.violation({"family": fam.name, "backend": b, "effective_source": eff, "srcs": c["srcs"],
+                                               "values": "plain" if values is vsets[0] else "numeric-looking strings"},
+                                              {"expected_value": want, "observed_value": got, "how": how, "stderr": res["stderr"][-600:]})
                     else:
                         # two-valued settings: each present source in turn carries the distinguished value
                         for star in (present or [None]):
